@@ -6,7 +6,7 @@
 From Coq Require Import Reals List.
 From Coquelicot Require Import Complex.
 From SpdVerif Require Import Base.CfgNumOps Model.NumInst Spec.ConfigSpec Gen.ConfigTables Gen.ConfigSites Model.ConfigTypes Model.Config Model.NormSpectrum
-  Proofs.C20_idempotent Proofs.C20_spectrum Gen.CfgSteps Gen.C20_SpectrumSteps Proofs.CfgSteps_eq Proofs.C20_spectrum_steps_eq.
+  Proofs.C20_idempotent Proofs.C20_spectrum Gen.CfgSteps Gen.C20_SpectrumSteps Proofs.CfgSteps_eq Proofs.C20_spectrum_steps_eq Model.Cfg_Composed Proofs.Cfg_composed.
 Import ListNotations.
 Local Open Scope R_scope.
 
@@ -141,6 +141,18 @@ Theorem C20_unit_at_centre_of_optimum : forall K minpos jsa_raw singles_raw norm
   (singles_of singles_raw norm_singles so w0s w0i <> 0 -> jsi_singles_normalized singles_raw norm_singles j w0s w0i = 1).
 Proof. exact unit_at_centre_of_optimum. Qed.
 
+(* COMPOSED with the generated / proved kernels of C03 / C04 (oracles_of_model, any index function, any Snell inverse, any
+   termination tests): the two collinear contracts are PROVED for that instance (external angle asin(n sin 0) = 0; emission angle
+   of a collinear signal: val = n_s sin(theta_s) / sqrt(arg) = 0 whatever the poling), so idempotence has no oracle hypothesis. *)
+Theorem C20_collinear_contract_composed : forall index_of snell_inv sd_theta sd_period,
+  collinear_contract (oracles_of_model index_of snell_inv sd_theta sd_period).
+Proof. exact collinear_contract_composed. Qed.
+
+Theorem C20_idempotent_composed : forall index_of snell_inv sd_theta sd_period minpos s s' nf,
+  try_as_optimum_now (oracles_of_model index_of snell_inv sd_theta sd_period) minpos s = Ok (s', nf) ->
+  try_as_optimum_now (oracles_of_model index_of snell_inv sd_theta sd_period) minpos s' = Ok (s', nf).
+Proof. exact idempotent_composed. Qed.
+
 (* ---- non-vacuity: oracles satisfying the contracts, an idler-consistent setup that optimises *)
 Definition ex_K : oracles R := ex_K0.   (* constant oracles, Proofs/C20_idempotent.v *)
 Example C20_ex_contract : collinear_contract ex_K.
@@ -151,6 +163,8 @@ Proof. exact (ex_optimises optimum_idler_sees_old_poling optimum_waist_sees_old_
 
 Print Assumptions C20_try_as_optimum_is_generated.
 Print Assumptions C20_spectrum_is_generated.
+Print Assumptions C20_collinear_contract_composed.
+Print Assumptions C20_idempotent_composed.
 Print Assumptions C20_idempotent_now.
 Print Assumptions C20_unit_at_centre_of_optimum.
 Print Assumptions C20_idempotent.
